@@ -268,6 +268,8 @@ var bseqGroup = axiomGroup{
 (assert (forall ((a (Array Int Int)) (o Int) (n Int) (s BSeq) (p Int) (m Int)) (! (=> (and (= (blen s) n) (<= o p) (<= 0 m) (<= (+ p m) (+ o n))) (= (seqOf (splice a o n s) p m) (bsub s (- p o) (- (+ p m) o)))) :pattern ((seqOf (splice a o n s) p m)))))
 (assert (forall ((a (Array Int Int)) (o Int) (n Int) (s BSeq) (p Int) (m Int)) (! (=> (or (<= (+ p m) o) (>= p (+ o n))) (= (seqOf (splice a o n s) p m) (seqOf a p m))) :pattern ((seqOf (splice a o n s) p m)))))
 (assert (forall ((n Int)) (! (=> (>= n 0) (= (blen (bzeros n)) n)) :pattern ((bzeros n)))))
+(assert (forall ((o Int) (n Int)) (! (=> (>= n 0) (= (seqOf ((as const (Array Int Int)) 0) o n) (bzeros n))) :pattern ((seqOf ((as const (Array Int Int)) 0) o n)))))
+(assert (forall ((a (Array Int Int)) (o Int)) (! (= (seqOf a o 1) (bbyte (select a o))) :pattern ((seqOf a o 1)))))
 (assert (forall ((n Int) (i Int)) (! (=> (and (<= 0 i) (< i n)) (= (bat (bzeros n) i) 0)) :pattern ((bat (bzeros n) i)))))
 (assert (forall ((v Int)) (! (= (blen (be16 v)) 2) :pattern ((be16 v)))))
 (assert (forall ((v Int)) (! (= (blen (be32 v)) 4) :pattern ((be32 v)))))
